@@ -18,6 +18,12 @@ CHECKS = {
  "C14": ("exploration", "law checking (round trip, self-delimiting, order preservation, JSON idempotence) on generated values of every persisted/served type",
          "Encode/Decode and serde laws evaluated on boundary-biased generated values of all persisted/served types and request types via the real trait impls.",
          "Values restricted to what the module's constructors can produce; sampled."),
+ "C06": ("exploration", "invariant monitor over the RPC surface with independently recomputed bloom / merkle root / RLP decoding, at every block boundary",
+         "Real engine, random histories incl. reorg+regrowth; all cross-reference equations of the statement recomputed by the harness (own bloom, own sha256 merkle, alloy-rlp) over all heights at every boundary; receipts handed to the indexer are the reference for block contents.",
+         "Sampled histories; inscription ids unique per transaction; one open known finding (duplicate hash after an invalid transaction)."),
+ "C15": ("exploration", "law checking on the real encoder/decoder (round trip, padding, bound, bombs) + differential twins hex vs base64 submission",
+         "Published encoder and server-side decoder called directly on generated payloads around 0 and around 2^20 bytes, hand-packed frames, bombs, unknown prefixes, truncations; twin instances fed hex vs base64 fields compared on responses and Obs.",
+         "Sampled payloads; near-limit payloads are few per run (zstd level 22 cost)."),
 }
 NOT_YET = "check not built yet in this session (planned, see DESIGN.md)"
 ALL = ["C%02d" % i for i in range(1, 21)]
